@@ -19,7 +19,18 @@ every generated row is well-formed.  A class outside the normal form is listed w
 (`unsupported`); the list is pinned by a theorem, so a class that leaves the normal form breaks an
 obligation.  The symbolic facts are cross-checked dynamically (`crosscheck`) by executing the
 extracted plumbing with the real functional helpers next to the real class.
-Regenerates lean/TE/Gen/Plumbing.lean on every run."""
+Regenerates lean/TE/Gen/Plumbing.lean on every run.
+
+Second part of the file (`XExec` and below): the classes outside that first normal form.  A row is a list of FACTS
+(TE/Model/Plumb.lean): `num` / `lst` as above plus `adopt` (the scalar->vector adoption branch of MeanSquaredError /
+R2Score, in update AND merge_state), `task` (`for i in range(self.num_tasks): self.f[i] += ...`, BinaryBinnedAUPRC),
+`der` / `const` (PeakSignalNoiseRatio: `data_range = max_target - min_target` recomputed after every accumulation;
+states nobody writes), a row MODE (one row per branch of `if self.<constructor flag>:`), `cmp` (AUC compacts its own
+lists at the start of merge_state), a cat dimension that is a constant state (Cat), `welford` (Covariance: one joint
+combine method, checked against the Chan template, called by update and by merge_state per source) and `topk`
+(RetrievalPrecision / RetrievalRecall: per-query retained lists, described as the code is — merge_state does not
+re-prune).  `Exec` itself is unchanged (translators/winplumb.py subclasses it); the five windowed classes keep the
+analysis of the first part (`analyse_basic`)."""
 from __future__ import annotations
 import ast, inspect, textwrap
 from ..common import LEAN, Report
@@ -715,7 +726,1065 @@ def default_is_unit(v, op):
     return False
 
 
-def analyse(spec):
+# ==================================================================== extended executor / normal forms
+#
+# What the classes outside the first normal form need (each is a FACT of the row, see TE/Model/Plumb.lean):
+#   * mode        : `if self.<flag>:` on a constructor flag -> one row per branch (PeakSignalNoiseRatio.auto_range)
+#   * adopt       : `if self.G.ndim == 0 and X.ndim == 1: self.f = X  else: self.f += X`   (MeanSquaredError, R2Score)
+#   * task        : `for i in range(self.num_tasks): self.f[i] += helper(args[i])`          (BinaryBinnedAUPRC)
+#   * der / const : `self.d = self.a - self.b` recomputed after the accumulation; states nobody writes
+# Refactorings that must not change the row: module-level helper functions of the class's own module are inlined,
+# `*a, b = helper(...)`, loops over literal tuples / zip(...) of them are unrolled, a condition already decided on the
+# path is not forked again, `getattr/setattr(self, <name>)` with a name known on the path.
+
+def _is(t, k):
+    return isinstance(t, tuple) and len(t) > 0 and t[0] == k
+
+
+def cfg_only(t):
+    """a condition that only reads the configuration (plain attributes of self) and constants."""
+    def ok(x):
+        if not isinstance(x, tuple):
+            return True
+        if x[0] in ("cfg", "const"):
+            return True
+        if x[0] in ("truthy", "not", "cmp", "and", "or", "isnone", "bin", "un"):
+            return all(ok(y) for y in x[1:])
+        return False
+    return ok(t) and mentions(t, lambda x: _is(x, "cfg"))
+
+
+class XExec(Exec):
+    def __init__(self, cls, states, list_states, metrics_param=None, n_src=2, mode=None):
+        super().__init__(cls, states, list_states, metrics_param, n_src)
+        self.mode = dict(mode or {})          # cfg-only condition -> bool (the row's mode)
+        self.cfg_conds = set()                # cfg-only conditions met (candidates for a mode split)
+        self.loops = []                       # active `for i in range(n)` loops: (id, n)
+        self.nloops = 0
+        self.own_modules = {k.__module__ for k in cls.__mro__ if k.__module__.startswith("torcheval")}
+        self._fn_cache = {}
+
+    # ---- conditions
+    def decide(self, c, env):
+        """True / False if the path (or the row's mode) already decides the condition, else None."""
+        if c in env.conds:
+            return True
+        if self.neg(c) in env.conds:
+            return False
+        neg = _is(c, "not")
+        p = c[1] if neg else c
+        if cfg_only(p):
+            self.cfg_conds.add(p)
+            if p in self.mode:
+                return self.mode[p] != neg
+        return None
+
+    # ---- expressions
+    def ev(self, e, env: Env):
+        if isinstance(e, ast.Subscript):
+            base = self.ev(e.value, env)
+            sl = e.slice
+            if isinstance(sl, ast.Name) and (_is(env.locals.get(sl.id), "loopvar") or
+                                             (_is(env.locals.get(sl.id), "const") and _is(base, "st") and base[2] in self.list_states)):
+                return ("idx", base, env.locals[sl.id])
+            if isinstance(sl, ast.Constant) and isinstance(sl.value, int) and not isinstance(sl.value, bool):
+                i = sl.value
+                if base[0] in ("tuple", "list") and 0 <= i < len(base) - 1:
+                    return base[1 + i]
+                if base[0] == "outs" and i >= 0:
+                    return ("out", base[1], base[2] + i)
+            return ("idx", base, ("src", ast.unparse(sl)))
+        if isinstance(e, ast.IfExp):
+            c = self.truth(self.ev(e.test, env))
+            d = self.decide(c, env)
+            if d is not None:
+                return self.ev(e.body if d else e.orelse, env)
+            return ("ite", c, self.ev(e.body, env), self.ev(e.orelse, env))
+        if isinstance(e, ast.BinOp) and isinstance(e.op, ast.Add):
+            a, b = self.ev(e.left, env), self.ev(e.right, env)
+            if _is(a, "list") and _is(b, "list"):
+                return a + b[1:]                      # [x] + [y, z]
+            return ("add", a, b)
+        if isinstance(e, ast.ListComp) and len(e.generators) == 1 and not e.generators[0].ifs and isinstance(e.generators[0].target, ast.Name) \
+                and not e.generators[0].is_async and self.ev(e.generators[0].iter, env) == ("metrics",):
+            tgt = e.generators[0].target.id
+            saved = env.locals.get(tgt)
+            items = []
+            for k in range(self.n_src):
+                env.locals[tgt] = ("obj", f"m{k + 1}")
+                items.append(self.ev(e.elt, env))
+            if saved is None:
+                env.locals.pop(tgt, None)
+            else:
+                env.locals[tgt] = saved
+            return ("list",) + tuple(items)           # [f(m) for m in metrics], in the order of the sources
+        if isinstance(e, ast.JoinedStr):
+            parts = []
+            for v in e.values:
+                if isinstance(v, ast.Constant):
+                    parts.append(str(v.value))
+                    continue
+                t = self.ev(v.value, env) if isinstance(v, ast.FormattedValue) and v.format_spec is None and v.conversion == -1 else None
+                if t is not None and t[0] == "const" and isinstance(eval(t[1]), (str, int)) and not isinstance(eval(t[1]), bool):
+                    parts.append(str(eval(t[1])))
+                else:
+                    return ("fstr", ast.unparse(e))
+            return ("const", repr("".join(parts)))
+        return super().ev(e, env)
+
+    def call(self, e: ast.Call, env: Env):
+        f = e.func
+        # in-place tensor methods on a registered state: `self.f.add_(x)` is `self.f += x`; any other is refused
+        if isinstance(f, ast.Attribute) and f.attr.endswith("_") and not f.attr.endswith("__"):
+            fld = self.own_field(f.value, env)
+            if fld is not None and fld not in self.list_states:
+                if f.attr == "add_" and len(e.args) == 1 and not e.keywords:
+                    env.state[fld] = ("add", env.state[fld], self.ev(e.args[0], env))
+                    return env.state[fld]
+                raise Unsupported(f"in-place method .{f.attr}() on state {fld}")
+        return super().call(e, env)
+
+    def fcall(self, name, e, env):
+        if name in ("torch.zeros_like", "torch.ones_like", "torch.empty_like") and len(e.args) == 1:
+            # depends on the SHAPE / dtype of its argument only: not a read of the value of a state
+            return ("call", name, (("shapeof", show(self.ev(e.args[0], env))),), ())
+        v = self.globs.get(name) if "." not in name else None
+        if inspect.isfunction(v) and getattr(v, "__module__", None) in self.own_modules:
+            r = self.try_inline_function(v, e, env)
+            if r is not None:
+                return r
+        return super().fcall(name, e, env)
+
+    def try_inline_function(self, v, e, env):
+        """a function of the class's own module with one path that ends in `return <expr>` and touches nothing."""
+        try:
+            fn = self._fn_cache.get(v)
+            if fn is None:
+                fn = ast.parse(textwrap.dedent(inspect.getsource(v))).body[0]
+                fn.args.args.insert(0, ast.arg(arg="__no_self__"))
+                self._fn_cache[v] = fn
+            if not isinstance(fn, ast.FunctionDef) or self.depth > 3:
+                return None
+            en = env.fork()
+            bound = self.bind_params(fn, e, en)
+            en.locals, en.alias = bound, {}
+            self.depth += 1
+            try:
+                outs = self.block(fn.body, en)
+            finally:
+                self.depth -= 1
+        except (Unsupported, OSError, TypeError, SyntaxError):
+            return None
+        if len(outs) != 1 or outs[0][1] is None or outs[0][1][0] != "return":
+            return None
+        en2, oc = outs[0]
+        if en2.state != env.state or en2.conds != env.conds:
+            return None
+        return oc[1]
+
+    def own_field(self, node, env):
+        if isinstance(node, ast.Attribute) and isinstance(node.value, ast.Name) and node.value.id == "self":
+            return node.attr if node.attr in self.states else None
+        if isinstance(node, ast.Call) and isinstance(node.func, ast.Name) and node.func.id == "getattr" and len(node.args) == 2 \
+                and isinstance(node.args[0], ast.Name) and node.args[0].id == "self":
+            try:
+                n = self.ev(node.args[1], env)
+            except Unsupported:
+                return None
+            if n[0] == "const" and isinstance(eval(n[1]), str) and eval(n[1]) in self.states:
+                return eval(n[1])
+        return None
+
+    # ---- statements
+    def assign(self, target, val, env, val_ast=None):
+        if isinstance(target, ast.Subscript):
+            f = self.own_field(target.value, env)
+            if f is not None and f in self.list_states:
+                idx = env.locals.get(target.slice.id) if isinstance(target.slice, ast.Name) else \
+                    ("const", repr(target.slice.value)) if isinstance(target.slice, ast.Constant) else None
+                ok = _is(idx, "const") or (self.loops and idx == ("loopvar", self.loops[-1][0]))
+                if not ok or _is(env.state[f], "rowset"):
+                    raise Unsupported(f"write to an entry of list state {f} that is not `self.{f}[i] = ...` for the loop index / a constant")
+                env.state[f] = ("rowset", env.state[f], idx, val)
+                return
+        if isinstance(target, ast.Subscript) and self.loops:
+            f = self.own_field(target.value, env)
+            if f is not None and f not in self.list_states:
+                k, n = self.loops[-1]
+                idx = env.locals.get(target.slice.id) if isinstance(target.slice, ast.Name) else None
+                cur = env.state[f]
+                if idx == ("loopvar", k) and val[0] in ("add", "max", "min") and len(val) == 3 \
+                        and val[1] == ("idx", cur, idx) and not mentions(val[2], own_state) and not _is(cur, "tmap"):
+                    env.state[f] = ("tmap", n, val[0], cur, val[2], k)
+                    return
+                raise Unsupported(f"row write to {f} that is not `self.{f}[i] op= term` under `for i in range(..)`")
+        return super().assign(target, val, env, val_ast)
+
+    def assign_star(self, target, val, env):
+        elts = target.elts
+        j = next(i for i, t in enumerate(elts) if isinstance(t, ast.Starred))
+        n = len(elts)
+        if val[0] in ("tuple", "list"):
+            items = list(val[1:])
+            m = len(items) - (n - 1)
+            if m < 0:
+                raise Unsupported("starred assignment: too few values")
+            for i, t in enumerate(elts):
+                if i < j:
+                    self.assign(t, items[i], env)
+                elif i == j:
+                    self.assign(t.value, ("list",) + tuple(items[j:j + m]), env)
+                else:
+                    self.assign(t, items[len(items) - (n - i)], env)
+            return
+        for i, t in enumerate(elts):
+            if i < j:
+                self.assign(t, ("out", val, i), env)
+            elif i == j:
+                self.assign(t.value, ("outs", val, j, n - 1 - j), env)
+            else:
+                self.assign(t, ("out", val, i - n), env)
+
+    def loop_items(self, it):
+        """the items of a loop that can be unrolled, or None."""
+        if it[0] in ("tuple", "list"):
+            return list(it[1:])
+        if it[0] == "call" and it[1] == "zip" and not it[3] and it[2]:
+            cols = it[2]
+            if any(c[0] not in ("tuple", "list", "outs") for c in cols):
+                return None
+            known = [len(c) - 1 for c in cols if c[0] in ("tuple", "list")]
+            if not known:
+                return None
+
+            def el(c, i):
+                return c[1 + i] if c[0] in ("tuple", "list") else ("out", c[1], c[2] + i)
+            return [("tuple",) + tuple(el(c, i) for c in cols) for i in range(min(known))]
+        if it[0] == "call" and it[1] == "range" and len(it[2]) == 1 and not it[3] and it[2][0][0] == "const":
+            try:
+                return [("const", repr(i)) for i in range(int(eval(it[2][0][1])))]
+            except Exception:  # noqa: BLE001
+                return None
+        return None
+
+    def unroll(self, s, items, env):
+        live, done = [env], []
+        for x in items:
+            nxt = []
+            for en in live:
+                self.assign(s.target, x, en)
+                for en2, oc in self.block(s.body, en):
+                    if oc is None or oc == ("continue",):
+                        nxt.append(en2)
+                    else:
+                        done.append((en2, None if oc == ("break",) else oc))
+            live = nxt
+        return [(en, None) for en in live] + done
+
+    def range_loop(self, s, n, env):
+        """`for i in range(n)` with a symbolic n: the body is run ONCE for a generic i.  Sound for what is read off
+        it because (checked here) the body has one path, leaves only at its end, changes registered states only by
+        `self.f[i] op= term` (-> ("tmap", n, op, before, term, loop)) and the terms do not use a local carried from
+        one iteration to the next."""
+        if not isinstance(s.target, ast.Name):
+            raise Unsupported("row loop target")
+        k = self.nloops
+        self.nloops += 1
+        assigned = set()
+        for node in ast.walk(ast.Module(body=s.body, type_ignores=[])):
+            if isinstance(node, (ast.Break, ast.Return)):
+                raise Unsupported("`for i in range(..)` loop leaves early")
+            tg = node.targets if isinstance(node, ast.Assign) else [node.target] if isinstance(node, (ast.AugAssign, ast.AnnAssign)) else []
+            for t in tg:
+                for tt in (t.elts if isinstance(t, (ast.Tuple, ast.List)) else [t]):
+                    tt = tt.value if isinstance(tt, ast.Starred) else tt
+                    if isinstance(tt, ast.Name):
+                        assigned.add(tt.id)
+        init = {nme: env.locals.get(nme, ("const", "None")) for nme in assigned}
+        for nme in assigned:
+            env.locals[nme] = ("undef", k, nme)
+        env.locals[s.target.id] = ("loopvar", k)
+        before = dict(env.state)
+        n_conds = len(env.conds)
+        self.loops.append((k, n))
+        try:
+            outs = self.block(s.body, env)
+        finally:
+            self.loops.pop()
+        if any(oc is not None and oc != ("continue",) for _, oc in outs) or len(outs) > 2:
+            raise Unsupported(f"fork or exit inside `for i in range({show(n)})`")
+        guard = None
+        if len(outs) == 2:
+            # `if <guard(i)>: <row update>` — one path does the update, the other leaves every state alone
+            (e1, _), (e2, _) = outs
+            c1, c2 = e1.conds[n_conds:], e2.conds[n_conds:]
+            if len(c1) != 1 or len(c2) != 1 or c2[0] != self.neg(c1[0]):
+                raise Unsupported(f"fork inside `for i in range({show(n)})` that is not one row guard")
+            idle = [e for e in (e1, e2) if all(e.state[f] == before[f] for f in self.states)]
+            if len(idle) != 1:
+                raise Unsupported(f"both branches of the row guard of `for i in range({show(n)})` change a state")
+            en = e2 if idle[0] is e1 else e1
+            guard = en.conds[n_conds]
+            en.conds = en.conds[:n_conds]
+        else:
+            en = outs[0][0]
+
+        def carried(x):
+            return isinstance(x, tuple) and len(x) == 3 and x[0] == "undef" and x[1] == k
+        for f in sorted(self.states):
+            t = en.state[f]
+            if t == before[f]:
+                continue
+            if _is(t, "rowset") and t[1] == before[f] and t[2] == ("loopvar", k):
+                if mentions(t[3], carried):
+                    raise Unsupported(f"row loop carries a local into the update of {f}")
+                en.state[f] = ("rowloop", n, k, guard, before[f], t[3])
+                continue
+            if guard is not None or not (_is(t, "tmap") and t[5] == k and t[3] == before[f]):
+                raise Unsupported(f"`for i in range({show(n)})` changes {f} other than row by row")
+            if mentions(t[4], carried):
+                raise Unsupported(f"row loop carries a local into the update of {f}")
+        # a local carried through the loop: afterwards an opaque function of its value before the loop and of what
+        # the body adds (both kept inside the term, so that a read of a state in either stays visible)
+        for nme in assigned:
+            en.locals[nme] = ("loopres", k, nme, n, init[nme], en.locals.get(nme, ("const", "None")))
+        en.locals[s.target.id] = ("after", k, s.target.id)
+        return [(en, None)]
+
+    def stmt(self, s, env: Env):
+        if isinstance(s, ast.If):
+            c = self.truth(self.ev(s.test, env))
+            d = self.decide(c, env)
+            if d is not None:
+                return self.block(s.body if d else s.orelse, env)
+            a, b = env, env.fork()
+            a.conds.append(c)
+            b.conds.append(self.neg(c))
+            return self.block(s.body, a) + self.block(s.orelse, b)
+        if isinstance(s, ast.For) and not s.orelse:
+            it = self.ev(s.iter, env)
+            if it[0] == "metrics":
+                return super().stmt(s, env)
+            items = self.loop_items(it)
+            if items is not None:
+                return self.unroll(s, items, env)
+            if it[0] == "call" and it[1] == "range" and len(it[2]) == 1 and not it[3]:
+                return self.range_loop(s, it[2][0], env)
+            raise Unsupported("loop over " + show(it)[:50])
+        if isinstance(s, ast.Assign) and len(s.targets) == 1 and isinstance(s.targets[0], (ast.Tuple, ast.List)) \
+                and any(isinstance(t, ast.Starred) for t in s.targets[0].elts):
+            self.assign_star(s.targets[0], self.ev(s.value, env), env)
+            return [(env, None)]
+        if isinstance(s, ast.Expr) and self.loops and isinstance(s.value, ast.Call) and isinstance(s.value.func, ast.Attribute) \
+                and isinstance(s.value.func.value, ast.Name) and s.value.func.value.id != "self":
+            v = self.ev(s.value, env)
+            if _is(v, "mcall"):
+                env.checks.append(v)        # e.g. result.append(f(self.state[i])): keep what it reads visible
+            return [(env, None)]
+        return super().stmt(s, env)
+
+
+def adopt_shape(c):
+    """c == (self.<G>.ndim == 0 and <X>.ndim == 1), literally  ->  (G, X)."""
+    if not (_is(c, "and") and len(c) == 3):
+        return None
+
+    def ndim_is(t, k):
+        if _is(t, "cmp") and t[1] == "Eq" and t[3] == ("const", str(k)) and _is(t[2], "attr") and t[2][2] == "ndim":
+            return t[2][1]
+        return None
+    g, x = ndim_is(c[1], 0), ndim_is(c[2], 1)
+    if g is None or x is None or not own_state(g) or mentions(x, own_state):
+        return None
+    return g[2], x
+
+
+def classify(term, f):
+    """how a path leaves state f: ("same",) | (op, X) | ("set", X) | ("tmap", op, X, n) | None."""
+    r = strip_acc(term, f, ("add", "max", "min", "app"))
+    if r is not None:
+        return ("same",) if r[0] == "same" else (r[0], r[1])
+    if _is(term, "tmap") and term[3] == st("self", f) and not mentions(term[4], own_state):
+        return ("tmap", term[2], term[4], term[1])
+    if not mentions(term, own_state):
+        return ("set", term)
+    return None
+
+
+def derived_form(state, f, fields):
+    """state[f] == state[a] - state[b] for two other states a, b  ->  (a, b)."""
+    t = state[f]
+    if _is(t, "bin") and t[1] == "Sub" and len(t) == 4:
+        for a in fields:
+            for b in fields:
+                if a != b and f not in (a, b) and t[2] == state[a] and t[3] == state[b]:
+                    return (a, b)
+    return None
+
+
+def _adoption_conds(paths):
+    found = {}
+    for en in paths:
+        for c in en.conds:
+            p = c[1] if _is(c, "not") else c
+            a = adopt_shape(p)
+            if a is not None:
+                found[p] = a
+    return found
+
+
+def _resolve(paths, fields, what):
+    """common part of update / one-source merge: per field the operation, the summand(s), adoption, derivation.
+    paths: environments of the paths that return normally."""
+    aconds = _adoption_conds(paths)
+    if len(aconds) > 1:
+        raise Unsupported(f"{what}: several adoption tests")
+    C = next(iter(aconds), None)
+    if C is not None:
+        pos = [en for en in paths if C in en.conds]
+        neg = [en for en in paths if ("not", C) in en.conds]
+        if len(pos) + len(neg) != len(paths) or not pos or not neg:
+            raise Unsupported(f"{what}: a path does not decide the adoption test")
+    res = {}
+    for f in fields:
+        recs = []
+        for en in paths:
+            r = classify(en.state[f], f)
+            if r is None:
+                d = derived_form(en.state, f, fields)
+                r = ("der",) + d if d is not None else None
+            if r is None:
+                raise Unsupported(f"{what} of {f} is not `state op= term`: {show(en.state[f])[:80]}")
+            recs.append((en, r))
+        kinds = {r[0] for _, r in recs}
+        out = {"op": None, "adopt": None, "task": None, "X": [], "der": None}
+        if kinds == {"same"}:
+            out["op"] = "same"
+        elif "der" in kinds:
+            ab = {r[1:] for _, r in recs if r[0] == "der"}
+            if len(ab) != 1 or not kinds <= {"der", "same"}:
+                raise Unsupported(f"{what} of {f}: derived on some paths only / from different states")
+            a, b = next(iter(ab))
+            # a path that does not recompute must not have touched a or b
+            fresh = all(r[0] == "der" or (en.state[a] == st("self", a) and en.state[b] == st("self", b)) for en, r in recs)
+            out["op"], out["der"] = "der", (a, b, fresh)
+        elif "set" in kinds:
+            if C is None:
+                raise Unsupported(f"{what} overwrites {f}: {show(recs[0][1][1])[:60]}")
+            pk = {r[0] for en, r in recs if en in pos}
+            nk = {r[0] for en, r in recs if en in neg}
+            if pk != {"set"} or nk != {"add"}:
+                raise Unsupported(f"{what} of {f}: the adoption test does not choose between `=` and `+=` ({sorted(pk)} / {sorted(nk)})")
+            px = {r[1] for en, r in recs if en in pos}
+            nx = {r[1] for en, r in recs if en in neg}
+            if px != nx:
+                raise Unsupported(f"{what} of {f}: adopted value and summand differ")
+            out["op"], out["adopt"], out["X"] = "add", aconds[C][0], sorted(px, key=show)
+        else:
+            ops = kinds - {"same"}
+            if len(ops) > 1:
+                raise Unsupported(f"{what} of {f} uses different operations on different paths")
+            if "same" in kinds:
+                raise Unsupported(f"{what} of {f} is conditional")
+            k = next(iter(ops))
+            if k == "tmap":
+                opn = {(r[1], r[3]) for _, r in recs}
+                if len(opn) != 1:
+                    raise Unsupported(f"{what} of {f}: row loops differ between paths")
+                out["op"], out["task"] = next(iter(opn))
+                out["X"] = sorted({r[2] for _, r in recs}, key=show)
+            else:
+                out["op"] = k
+                out["X"] = sorted({r[1] for _, r in recs}, key=show)
+        res[f] = out
+    if C is not None:
+        G, X = aconds[C]
+        if res[G]["adopt"] != G or X not in res[G]["X"]:
+            raise Unsupported(f"{what}: the adoption test reads {show(X)[:40]}, which is not the summand of {G}")
+    return res, C
+
+
+def x_update(ex: XExec):
+    outs = ex.run("update")
+    ok = [en for en, oc in outs if oc is None or oc[0] == "return"]
+    if not ok:
+        raise Unsupported("update never returns")
+    res, _ = _resolve(ok, sorted(ex.states), "update")
+    info = {"paths": len(ok), "raises": sorted({oc[1] for _, oc in outs if oc is not None and oc[0] == "raise"}),
+            "checks": sorted({show(c) for en in ok for c in en.checks})}
+    return res, info
+
+
+def subst(t, m):
+    if not isinstance(t, tuple):
+        return t
+    if t in m:
+        return m[t]
+    return tuple(subst(x, m) for x in t)
+
+
+def fold_chain(t, f, srcs):
+    """t = op(..op(op(self.f, m1.g), m2.g)..)  ->  (op, g)."""
+    chain, op = [], None
+    while t != st("self", f):
+        if not isinstance(t, tuple) or t[0] not in ("add", "max", "min") or len(t) != 3:
+            return None
+        if op not in (None, t[0]):
+            raise Unsupported(f"merge of {f} mixes operations")
+        op = t[0]
+        a, b = t[1], t[2]
+        if _is(b, "st") and b[1] in srcs:
+            chain.append(b)
+            t = a
+        elif _is(a, "st") and a[1] in srcs and (b == st("self", f) or b[0] in ("add", "max", "min")):
+            chain.append(a)
+            t = b
+        else:
+            return None
+    chain.reverse()
+    if [c[1] for c in chain] != srcs:
+        raise Unsupported(f"merge of {f} folds sources {[c[1] for c in chain]}")
+    fs = {c[2] for c in chain}
+    if len(fs) != 1:
+        raise Unsupported(f"merge of {f} reads different states of different sources")
+    return op, fs.pop()
+
+
+def x_merge(mk):
+    """mk(n) -> a fresh XExec with n symbolic sources.  Numeric / derived / constant states; list states are read by
+    `norm_merge`."""
+    def paths(n):
+        ex = mk(n)
+        outs = ex.run("merge_state")
+        if any(oc is not None and oc[0] == "raise" for _, oc in outs):
+            raise Unsupported("merge_state raises on some path")
+        return ex, [en for en, _ in outs]
+    ex2, p2 = paths(2)
+    fields = sorted(ex2.states - ex2.list_states)
+    allf = sorted(ex2.states)
+    srcs = ["m1", "m2"]
+    res = {}
+    if not _adoption_conds(p2):
+        for f in fields:
+            forms = set()
+            for en in p2:
+                t = en.state[f]
+                if t == st("self", f):
+                    forms.add(("same",))
+                    continue
+                c = fold_chain(t, f, srcs)
+                if c is not None:
+                    forms.add(("fold",) + c)
+                    continue
+                d = derived_form(en.state, f, allf)
+                if d is not None:
+                    forms.add(("der",) + d)
+                    continue
+                raise Unsupported(f"merge of {f} is not a fold over the sources: {show(t)[:80]}")
+            if len(forms) != 1:
+                raise Unsupported(f"merge of {f} differs between paths")
+            res[f] = next(iter(forms))
+        # derived states: recomputed once after the loop (also without a source) or inside it?
+        if any(r[0] == "der" for r in res.values()):
+            _, p0 = paths(0)
+            for f, r in list(res.items()):
+                if r[0] == "der":
+                    at_end = all(derived_form(en.state, f, allf) == r[1:3] for en in p0)
+                    res[f] = r + (at_end,)
+        return res
+    # ---- adoption: read the one-source step, then check that two sources are the step twice
+    if ex2.list_states:
+        raise Unsupported("adoption branch in a class with list states")
+    ex1, p1 = paths(1)
+    step, C = _resolve(p1, fields, "merge_state")
+    if C is None:
+        raise Unsupported("merge_state: adoption test only with two sources")
+    G = _adoption_conds(p1)[C][0]
+    Gsrc = _adoption_conds(p1)[C][1]
+    for f in fields:
+        r = step[f]
+        if r["op"] == "same":
+            res[f] = ("same",)
+            continue
+        if r["op"] not in ("add", "max", "min") or len(r["X"]) != 1 or not (_is(r["X"][0], "st") and r["X"][0][1] == "m1"):
+            raise Unsupported(f"merge of {f} is not `state op= source.state`")
+        res[f] = ("fold", r["op"], r["X"][0][2]) + ((("adopt", G, Gsrc[2] if _is(Gsrc, "st") and Gsrc[1] == "m1" else "?"),) if r["adopt"] else ())
+    # expected paths for two sources = the step composed with itself
+    def norm(en):
+        return (tuple(en.conds), tuple((f, en.state[f]) for f in fields))
+    expected = set()
+    for a in p1:
+        m = {st("self", f): a.state[f] for f in fields}
+        m.update({st("m1", f): st("m2", f) for f in allf})
+        for b in p1:
+            conds, dead = list(a.conds), False
+            for c in b.conds:
+                c2 = subst(c, m)
+                if c2 in conds:
+                    continue
+                if Exec.neg(c2) in conds:
+                    dead = True
+                    break
+                conds.append(c2)
+            if not dead:
+                expected.add((tuple(conds), tuple((f, subst(b.state[f], m)) for f in fields)))
+    if expected != {norm(en) for en in p2}:
+        raise Unsupported("merge_state with two sources is not its one-source step applied twice")
+    return res
+
+
+def cond_holds(c, m):
+    """evaluate a cfg-only condition on a constructed object (None = cannot tell)."""
+    try:
+        def val(t):
+            if t[0] == "cfg":
+                return getattr(m, t[1])
+            if t[0] == "const":
+                return eval(t[1])
+            if t[0] == "bin":
+                a, b = val(t[2]), val(t[3])
+                return {"Sub": a - b, "Add": a + b, "Mult": a * b, "FloorDiv": a // b if b else None}[t[1]]
+            raise KeyError(t[0])
+
+        def tr(t):
+            if t[0] == "truthy":
+                return bool(val(t[1]))
+            if t[0] == "not":
+                return not tr(t[1])
+            if t[0] == "isnone":
+                return val(t[1]) is None
+            if t[0] == "and":
+                return all(tr(x) for x in t[1:])
+            if t[0] == "or":
+                return any(tr(x) for x in t[1:])
+            if t[0] == "cmp":
+                a, b = val(t[2]), val(t[3])
+                return {"Eq": a == b, "NotEq": a != b, "Lt": a < b, "LtE": a <= b, "Gt": a > b, "GtE": a >= b,
+                        "Is": a is b, "IsNot": a is not b}[t[1]]
+            raise KeyError(t[0])
+        return tr(c), val
+    except Exception:  # noqa: BLE001
+        return None, None
+
+
+def mode_holds(mode, m):
+    for c, want in mode.items():
+        got, _ = cond_holds(c, m)
+        if got is None or got != want:
+            return False
+    return True
+
+
+def mode_str(mode):
+    def sh(c):
+        return show(c[1]) if _is(c, "truthy") else "(" + show(c) + ")"
+    return " and ".join((sh(c) if v else "not " + sh(c)) for c, v in sorted(mode.items(), key=lambda kv: show(kv[0])))
+
+
+def analyse_mode(spec, cls, regs, lists, defaults, objs, mode):
+    """one plumbing row for the configurations in which `mode` holds; -> (row, cfg-only conditions met)."""
+    row = {"name": spec.name, "states": sorted(regs), "lists": sorted(lists), "unsupported": None, "fields": [], "compute": [],
+           "update_info": {}, "mode": mode_str(mode), "mode_terms": dict(mode)}
+    seen = set()
+
+    def mk(n=2):
+        ex = XExec(cls, regs, lists, n_src=n, mode=mode)
+        made.append(ex)
+        return ex
+    made = []
+    try:
+        ex = mk()
+        for need in ("update", "merge_state", "compute"):
+            if need not in ex.meths:
+                raise Unsupported(f"no {need}() in a torcheval class")
+        upd, uinfo = x_update(ex)
+        num = x_merge(mk)
+        reads, descr = norm_compute(mk())
+        row["compute"], row["update_info"] = descr, uinfo
+        lst_m = x_merge_lists(mk, lists) if lists else {}
+        mine = [m for m in objs if mode_holds(mode, m)]
+        for f in sorted(regs):
+            u = upd[f]
+            usrc = " | ".join(show(x) for x in u["X"])
+            if f in lists:
+                if u["op"] != "app":
+                    raise Unsupported(f"list state {f} is not appended to by update ({u['op']})")
+                src, guard, dim, cgs, cdim = lst_m[f]
+                dims = sorted({_dim_of(r[1], ["self"]) for r in reads[f] if isinstance(r, tuple)}, key=str)
+                if any(d is None for d in dims):
+                    raise Unsupported(f"compute concatenates {f} along a non-constant dim")
+                raw = sum(1 for r in reads[f] if r == "raw")
+                extra = {"cmp": (cgs, cdim)} if cgs is not None else {}
+                row["fields"].append({"kind": "lst", "name": f, "src": src, "guard": guard, "dim": dim, "readDims": dims, "raw": raw, "usrc": usrc, **extra})
+                continue
+            m = num[f]
+            if u["op"] == "same" and m[0] == "same":
+                row["fields"].append({"kind": "const", "name": f, "usrc": ""})
+                continue
+            if u["op"] == "der" or m[0] == "der":
+                ua = u["der"] if u["op"] == "der" else None
+                ma = m[1:] if m[0] == "der" else None
+                if (ua is None and u["op"] != "same") or (ma is None and m[0] != "same"):
+                    raise Unsupported(f"{f} is derived in one of update / merge_state and accumulated in the other")
+                a, b = (ua or ma)[0], (ua or ma)[1]
+                if ua is not None and ma is not None and (ua[0], ua[1]) != (ma[0], ma[1]):
+                    raise Unsupported(f"{f} is derived from different states in update and merge_state")
+                row["fields"].append({"kind": "der", "name": f, "a": a, "b": b, "inUpd": bool(ua and ua[2]), "inMrg": ma is not None,
+                                      "atEnd": bool(ma and ma[2]), "usrc": ""})
+                continue
+            if u["op"] not in ("add", "max", "min"):
+                raise Unsupported(f"numeric state {f}: update is `{u['op']}`")
+            if m[0] != "fold":
+                raise Unsupported(f"numeric state {f}: update accumulates, merge_state is `{m[0]}`")
+            du = all(default_is_unit(v, u["op"]) for v in defaults[f])
+            fld = {"kind": "num", "name": f, "upd": u["op"], "mrg": m[1], "src": m[2], "usrc": usrc, "du": du}
+            madopt = m[3] if len(m) > 3 else None
+            if u["adopt"] or madopt:
+                fld["adopt"] = (u["adopt"] or "", (madopt[1] if madopt[1] == madopt[2] else f"{madopt[1]} / source {madopt[2]}") if madopt else "")
+            if u["task"] is not None:
+                rows_ok = bool(mine)
+                for o in mine:
+                    _, val = cond_holds(("truthy", ("const", "1")), o)
+                    try:
+                        n = val(u["task"])
+                        d = o._state_name_to_default[f]
+                        rows_ok = rows_ok and hasattr(d, "shape") and len(d.shape) >= 1 and int(d.shape[0]) == int(n)
+                    except Exception:  # noqa: BLE001
+                        rows_ok = False
+                fld["task"] = (show(u["task"]), show(u["task"]) if rows_ok else "first dimension of the default")
+            row["fields"].append(fld)
+    except Unsupported as e:
+        row["unsupported"] = str(e)
+        row["fields"] = []
+    except RecursionError:
+        row["unsupported"] = "recursion"
+        row["fields"] = []
+    for ex in made:
+        seen |= ex.cfg_conds
+    return row, seen
+
+
+def _own_guard(c, lists):
+    """c == self.g1 [and self.g2 ...] (non-emptiness of own list states) -> [g1, g2, ...]."""
+    parts = list(c[1:]) if _is(c, "and") else [c]
+    gs = []
+    for p_ in parts:
+        if _is(p_, "nonempty") and own_state(p_[1]) and p_[1][2] in lists:
+            gs.append(p_[1][2])
+        else:
+            return None
+    return gs
+
+
+def _dim_of(d, srcs_or_self):
+    """a cat dimension: an int, or the constant state <D> of the object the list belongs to -> ("st", D)."""
+    if isinstance(d, int):
+        return d
+    if _is(d, "st") and d[1] in srcs_or_self:
+        return ("st", d[2])
+    return None
+
+
+def x_merge_lists(mk, lists):
+    """the list states of merge_state (two symbolic sources): on every path the object's own list (possibly compacted
+    first: `self.f = [torch.cat(self.f, d)]` under `if self.g1 and self.g2`), then `torch.cat(source.f, d)` of exactly
+    the sources whose guard list is non-empty, in order.  -> f -> (src, guard, dim, compaction guards | None, its dim)"""
+    ex = mk(2)
+    outs = ex.run("merge_state")
+    if any(oc is not None and oc[0] == "raise" for _, oc in outs):
+        raise Unsupported("merge_state raises on some path")
+    srcs = ["m1", "m2"]
+    res = {}
+    for f in sorted(lists):
+        guard = dim = src = cgs = cdim = None
+        for en, _ in outs:
+            ne, compacted = {}, False
+            for c in en.conds:
+                neg = _is(c, "not")
+                c2 = c[1] if neg else c
+                og = _own_guard(c2, lists)
+                if og is not None:
+                    if cgs not in (None, og):
+                        raise Unsupported(f"merge of {f}: compaction under different guards")
+                    cgs, compacted = og, not neg
+                elif _is(c2, "nonempty") and _is(c2[1], "st") and c2[1][1] in srcs:
+                    if guard not in (None, c2[1][2]):
+                        raise Unsupported(f"merge of {f}: guards on different states")
+                    guard = c2[1][2]
+                    ne[c2[1][1]] = not neg
+                else:
+                    raise Unsupported(f"merge path condition {show(c2)[:60]}")
+            t = en.state[f]
+            items = []
+            while _is(t, "app"):
+                items.append(t[2])
+                t = t[1]
+            if t == st("self", f):
+                base_compact = False
+            elif _is(t, "list") and len(t) == 2 and _is(t[1], "cat") and t[1][1] == st("self", f) and _dim_of(t[1][2], ["self"]) is not None:
+                base_compact = True
+                if cdim not in (None, _dim_of(t[1][2], ["self"])):
+                    raise Unsupported(f"merge of {f}: compaction along different dims")
+                cdim = _dim_of(t[1][2], ["self"])
+            else:
+                raise Unsupported(f"merge rebinds list state {f}")
+            if base_compact != compacted:
+                raise Unsupported(f"merge of {f}: the compaction of the own list does not follow its guard")
+            items.reverse()
+            want = [m for m in srcs if ne.get(m, None)]
+            if any(m not in ne for m in srcs):
+                if ne:
+                    raise Unsupported(f"merge of {f}: a source is not guarded on some path")
+                want = None
+            got = []
+            for it in items:
+                if not _is(it, "cat") or not _is(it[1], "st") or it[1][1] not in srcs:
+                    raise Unsupported(f"merge appends {show(it)[:60]} to {f}")
+                d = _dim_of(it[2], [it[1][1]])
+                if d is None:
+                    raise Unsupported(f"merge of {f}: non-constant cat dim {show(it[2])}")
+                if dim not in (None, d) or src not in (None, it[1][2]):
+                    raise Unsupported(f"merge of {f}: sources differ in dim / state")
+                dim, src = d, it[1][2]
+                got.append(it[1][1])
+            if want is None:
+                if got != srcs:
+                    raise Unsupported(f"merge of {f}: unguarded append does not cover the sources in order")
+            elif got != want:
+                raise Unsupported(f"merge of {f}: appended sources {got} on the path where {want} are non-empty")
+        if src is None:
+            raise Unsupported(f"merge never appends to {f}")
+        res[f] = (src, guard if guard is not None else "", dim, cgs if cdim is not None else None, cdim)
+    return res
+
+
+# -------------------------------------------------------------------- joint (Welford / Chan) accumulators
+
+class JExec(XExec):
+    """XExec that does NOT inline the joint combine method: `self.<combine>(a, b, c)` is recorded as an event."""
+    def __init__(self, *a, combine=None, **k):
+        super().__init__(*a, **k)
+        self.combine = combine
+
+    def _joint(self, c, env):
+        fn = self.meths[self.combine]
+        bound = self.bind_params(fn, c, env)
+        env.checks.append(("joint", tuple(sorted(bound.items()))))
+
+    def stmt(self, s, env):
+        if isinstance(s, ast.Expr) and isinstance(s.value, ast.Call) and isinstance(s.value.func, ast.Attribute) \
+                and isinstance(s.value.func.value, ast.Name) and s.value.func.value.id == "self" and s.value.func.attr == self.combine:
+            self._joint(s.value, env)
+            return [(env, None)]
+        return super().stmt(s, env)
+
+
+def _called_methods(fn):
+    out = []
+    for node in ast.walk(fn):
+        if isinstance(node, ast.Call) and isinstance(node.func, ast.Attribute) and isinstance(node.func.value, ast.Name) \
+                and node.func.value.id == "self":
+            out.append(node.func.attr)
+    return out
+
+
+def chan_template(N, S, Q, n, s_, q_):
+    """the states after the general branch of the Chan / Welford combine, literally as cov.py writes it (the two
+    commutative spellings of `n * self.n` and `self.n + n` are accepted)."""
+    sN, sS, sQ = st("self", N), st("self", S), st("self", Q)
+    delta = ("bin", "Sub", ("bin", "Div", sS, sN), ("bin", "Div", s_, n))
+    outer = ("call", "torch.outer", (delta, delta), ())
+    outs = []
+    for prod in (("bin", "Mult", n, sN), ("bin", "Mult", sN, n)):
+        for tot in (("add", sN, n), ("add", n, sN)):
+            outs.append({N: ("add", sN, n), S: ("add", sS, s_),
+                         Q: ("add", sQ, ("add", q_, ("bin", "Div", ("bin", "Mult", outer, prod), tot)))})
+    return outs
+
+
+def analyse_welford(spec, cls, regs, lists, objs):
+    """a class whose states are updated only JOINTLY by one combine method that update() calls with the statistics of
+    the batch and merge_state() calls with the states of every source in order (Covariance).  -> row | None"""
+    if lists or len(regs) != 3:
+        return None
+    ex0 = XExec(cls, regs, lists)
+    if not all(k in ex0.meths for k in ("update", "merge_state", "compute")):
+        return None
+    common = [m for m in _called_methods(ex0.meths["update"]) if m in _called_methods(ex0.meths["merge_state"])
+              and m in ex0.meths and m not in regs]
+    if len(set(common)) != 1:
+        return None
+    comb = common[0]
+    row = {"name": spec.name, "states": sorted(regs), "lists": [], "unsupported": None, "fields": [], "compute": [], "update_info": {},
+           "mode": "", "mode_terms": {}}
+    try:
+        fn = ex0.meths[comb]
+        params = [a.arg for a in fn.args.args][1:]
+        if len(params) != 3 or fn.args.kwonlyargs or fn.args.vararg or fn.args.kwarg:
+            raise Unsupported(f"joint combine {comb}() does not take three statistics")
+        # (i) the body of the combine, run on symbolic parameters
+        ex = XExec(cls, regs, lists)
+        env = Env(ex.states, ex.list_states, {f: st("self", f) for f in ex.states})
+        for p_ in params:
+            env.locals[p_] = ("arg", p_)
+        outs = ex.block(fn.body, env)
+        if any(oc is not None and oc[0] not in ("return",) for _, oc in outs) or len(outs) != 3:
+            raise Unsupported(f"{comb}() is not the three-branch combine (empty batch / empty state / general)")
+        noop = [en for en, _ in outs if all(en.state[f] == st("self", f) for f in regs)]
+        adopt = [en for en, _ in outs if all(_is(en.state[f], "arg") for f in regs)]
+        gen = [en for en, _ in outs if en not in noop and en not in adopt]
+        if len(noop) != 1 or len(adopt) != 1 or len(gen) != 1:
+            raise Unsupported(f"{comb}() is not the three-branch combine (empty batch / empty state / general)")
+        role = {adopt[0].state[f][1]: f for f in regs}           # parameter -> state it fills
+        if sorted(role) != sorted(params):
+            raise Unsupported(f"{comb}(): the empty-state branch does not adopt every statistic")
+        # which parameter is the count: the one both emptiness tests read
+        c_noop = noop[0].conds
+        if len(c_noop) != 1 or not (_is(c_noop[0], "cmp") and c_noop[0][1] == "Eq" and _is(c_noop[0][2], "arg") and c_noop[0][3] == ("const", "0")):
+            raise Unsupported(f"{comb}(): the first branch is not `if <count> == 0: return`")
+        n_par = c_noop[0][2][1]
+        N = role[n_par]
+        if adopt[0].conds != [("not", c_noop[0]), ("cmp", "Eq", st("self", N), ("const", "0"))]:
+            raise Unsupported(f"{comb}(): the second branch is not `elif self.{N} == 0`")
+        # the general branch: which of the other two is the plain sum, which carries the correction
+        others = [p_ for p_ in params if p_ != n_par]
+        chan, S, Q = False, role[others[0]], role[others[1]]
+        for s_par, q_par in (others, others[::-1]):
+            for tmpl in chan_template(N, role[s_par], role[q_par], ("arg", n_par), ("arg", s_par), ("arg", q_par)):
+                if all(gen[0].state[f] == tmpl[f] for f in regs):
+                    chan, S, Q = True, role[s_par], role[q_par]
+        # (ii) update() and merge_state() call it, and do nothing else to the states
+        def calls(name, n_src):
+            jx = JExec(cls, regs, lists, n_src=n_src, combine=comb)
+            po = jx.run(name)
+            ok = [en for en, oc in po if oc is None or oc[0] == "return"]
+            if len(ok) != 1 or any(ok[0].state[f] != st("self", f) for f in regs):
+                raise Unsupported(f"{name}() does more to the states than calling {comb}()")
+            return [dict(c[1]) for c in ok[0].checks if _is(c, "joint")]
+        cu = calls("update", 2)
+        same = len(cu) == 1 and not any(mentions(v, own_state) for v in cu[0].values())
+        cm = calls("merge_state", 2)
+        args_ok = len(cm) == 2 and all(cm[k] == {p_: st(f"m{k + 1}", role[p_]) for p_ in params} for k in range(2))
+        _, descr = norm_compute(XExec(cls, regs, lists))
+        row["compute"] = descr
+        row["fields"] = [{"kind": "welford", "name": N, "n": N, "sum": S, "ss": Q, "combine": comb, "same": same, "args": args_ok, "chan": chan,
+                          "usrc": " ; ".join(f"{role[p_]} <- {show(cu[0][p_])}" for p_ in params) if cu else ""}]
+        return row
+    except Unsupported as e:
+        row["unsupported"] = f"joint combine {comb}(): {e}"
+        return row
+
+
+# -------------------------------------------------------------------- per-query retained top-k lists (Retrieval*)
+
+def _match_sel(val, vals, i):
+    """val == get_topk(torch.cat([self.<vals>[i], X]), K)[0]  ->  (T, X, K)."""
+    if not (_is(val, "idx") and val[2] == ("src", "0") and _is(val[1], "call") and len(val[1][2]) == 2 and not val[1][3]):
+        return None
+    T = val[1]
+    c, K = T[2]
+    if not (_is(c, "cat") and c[2] == 0 and _is(c[1], "list") and len(c[1]) == 3 and c[1][1] == ("idx", st("self", vals), i)):
+        return None
+    X = c[1][2]
+    if mentions(X, own_state) or mentions(K, own_state):
+        return None
+    return T, X, K
+
+
+def _match_gather(val, labels, i, T):
+    """val == torch.cat([self.<labels>[i], Y]).gather(dim=-1, index=T[1])  ->  Y."""
+    if not (_is(val, "mcall") and val[1] == "gather" and val[3] == () and val[4] == (("dim", ("const", "-1")), ("index", ("idx", T, ("src", "1"))))):
+        return None
+    c = val[2]
+    if not (_is(c, "cat") and c[2] == 0 and _is(c[1], "list") and len(c[1]) == 3 and c[1][1] == ("idx", st("self", labels), i)):
+        return None
+    return None if mentions(c[1][2], own_state) else c[1][2]
+
+
+def analyse_topk(spec, cls, regs, lists, objs):
+    """two per-query list states (scores, labels) that update() extends and PRUNES per query
+    (`get_topk(cat([state[i], x_i]), k)`, labels gathered by the same indices) and merge_state() concatenates per
+    query.  The row describes the code as it is (merge does not prune).  -> row | None"""
+    if regs != lists or len(regs) != 2:
+        return None
+    row = {"name": spec.name, "states": sorted(regs), "lists": sorted(lists), "unsupported": None, "fields": [], "compute": [], "update_info": {},
+           "mode": "", "mode_terms": {}}
+    try:
+        ex = XExec(cls, regs, lists)
+        outs = ex.run("update")
+    except Unsupported:
+        return None
+    ok = [en for en, oc in outs if oc is None or oc[0] == "return"]
+    if not any(_is(en.state[f], "rowset") or _is(en.state[f], "rowloop") for en in ok for f in regs):
+        return None                       # not the shape of the retrieval classes: the generic reason stands
+    try:
+        facts = set()
+        for en in ok:
+            forms = {}
+            for f in sorted(regs):
+                t = en.state[f]
+                if _is(t, "rowset") and t[1] == st("self", f) and _is(t[2], "const"):
+                    forms[f] = (t[2], None, None, t[3])
+                elif _is(t, "rowloop") and t[4] == st("self", f):
+                    forms[f] = (("loopvar", t[2]), t[1], t[3], t[5])
+                else:
+                    raise Unsupported(f"update of {f} is not a per-query write: {show(t)[:70]}")
+            idxs = {v[:3] for v in forms.values()}
+            if len(idxs) != 1:
+                raise Unsupported("update writes the two lists at different entries / under different guards")
+            i, n, guard = next(iter(idxs))
+            found = None
+            for vals in sorted(regs):
+                labels = next(x for x in regs if x != vals)
+                m_ = _match_sel(forms[vals][3], vals, i)
+                if m_ is not None and _match_gather(forms[labels][3], labels, i, m_[0]) is not None:
+                    found = (vals, labels, m_[0][1], show(m_[2]))
+            if found is None:
+                raise Unsupported("update is not `state[i] = select(cat([state[i], batch rows of query i]), k)` with the labels gathered alongside")
+            if guard is not None and mentions(guard, own_state):
+                raise Unsupported("the row guard of update reads a state")
+            facts.add(found + ((show(n), None) if n is not None else (None, tuple(en.conds))))
+        loops = {f_[4] for f_ in facts if f_[4] is not None}
+        if len({f_[:4] for f_ in facts}) != 1 or len(loops) != 1:
+            raise Unsupported("update: paths disagree on the selection / the range of the query loop")
+        vals, labels, sel, k = next(iter(facts))[:4]
+        loop = next(iter(loops))
+        nterm = next(en.state[vals][1] for en in ok if _is(en.state[vals], "rowloop"))
+        for f_ in facts:
+            # the path that writes entry 0 only must be the one-query configuration
+            if f_[4] is None and ("cmp", "Eq", nterm, ("const", "1")) not in f_[5]:
+                raise Unsupported("update writes entry 0 only, outside `if <number of queries> == 1`")
+        # merge_state: per query, the own entry followed by the sources' entries, in order
+        ex2 = XExec(cls, regs, lists, n_src=2)
+        mo = ex2.run("merge_state")
+        if len(mo) != 1 or (mo[0][1] is not None and mo[0][1][0] != "return") or mo[0][0].conds:
+            raise Unsupported("merge_state forks or raises")
+        mrg_prunes = False
+        for f in sorted(regs):
+            t = mo[0][0].state[f]
+            lv = ("loopvar", t[2]) if _is(t, "rowloop") else None
+            want = ("cat", ("list", ("idx", st("self", f), lv), ("idx", st("m1", f), lv), ("idx", st("m2", f), lv)), 0)
+            if not (_is(t, "rowloop") and t[3] is None and t[4] == st("self", f) and t[5] == want):
+                raise Unsupported(f"merge of {f} is not `state[i] = cat([state[i]] + [m.state[i] for m in metrics])` per query: {show(t)[:70]}")
+            if show(t[1]) != loop:
+                raise Unsupported(f"merge of {f} loops over range({show(t[1])}), update over range({loop})")
+        rows_ok = bool(objs)
+        for o in objs:
+            _, val = cond_holds(("truthy", ("const", "1")), o)
+            try:
+                rows_ok = rows_ok and all(len(o._state_name_to_default[f]) == int(val(nterm)) for f in regs)
+            except Exception:  # noqa: BLE001
+                rows_ok = False
+        row["fields"] = [{"kind": "topk", "name": vals, "vals": vals, "labels": labels, "k": k, "sel": sel, "loop": loop,
+                          "rows": loop if rows_ok else "length of the default list", "updPrunes": True, "mrgPrunes": mrg_prunes, "usrc": ""}]
+        return row
+    except Unsupported as e:
+        row["unsupported"] = str(e)
+        return row
+
+
+def analyse_basic(spec):
+    """the first normal form only (kept for the windowed classes, whose rows belong to translators/winplumb.py)."""
     regs, lists = set(), set()
     defaults = {}
     for c in spec.configs:
@@ -726,7 +1795,8 @@ def analyse(spec):
             if isinstance(v, list):
                 lists.add(k)
     cls = type(m)
-    row = {"name": spec.name, "states": sorted(regs), "lists": sorted(lists), "unsupported": None, "fields": [], "compute": [], "update_info": {}}
+    row = {"name": spec.name, "states": sorted(regs), "lists": sorted(lists), "unsupported": None, "fields": [], "compute": [], "update_info": {},
+           "mode": "", "mode_terms": {}}
     try:
         if any(isinstance(v, dict) for v in m._state_name_to_default.values()):
             raise Unsupported("dict-valued state")
@@ -764,8 +1834,51 @@ def analyse(spec):
     return row
 
 
+def analyse(spec):
+    if spec.kind == "window":
+        return [analyse_basic(spec)]
+    regs, lists = set(), set()
+    defaults = {}
+    objs = []
+    for c in spec.configs:
+        m = new_metric(spec, fresh_cfg(c))
+        objs.append(m)
+        for k, v in m._state_name_to_default.items():
+            regs.add(k)
+            defaults.setdefault(k, []).append(v)
+            if isinstance(v, list):
+                lists.add(k)
+    cls = type(m)
+    if any(isinstance(v, dict) for v in m._state_name_to_default.values()):
+        return [{"name": spec.name, "states": sorted(regs), "lists": sorted(lists), "unsupported": "dict-valued state", "fields": [],
+                 "compute": [], "update_info": {}, "mode": "", "mode_terms": {}}]
+    row, seen = analyse_mode(spec, cls, regs, lists, defaults, objs, {})
+    if row["unsupported"] is not None:
+        for special in (analyse_welford, analyse_topk):
+            w = special(spec, cls, regs, lists, objs)
+            if w is not None and w["unsupported"] is None:
+                return [w]
+            if w is not None and special is analyse_topk:
+                return [w]            # the shape is that of the retrieval classes: report why it is not the normal form
+    if row["unsupported"] is None or not seen or len(seen) > 2:
+        return [row]
+    # the methods branch on the configuration: one row per branch, if every branch has a normal form
+    import itertools
+    conds = sorted(seen, key=show)
+    rows = []
+    for vals in itertools.product([True, False], repeat=len(conds)):
+        mode = dict(zip(conds, vals))
+        if not any(mode_holds(mode, o) for o in objs):
+            continue
+        r, _ = analyse_mode(spec, cls, regs, lists, defaults, [o for o in objs if mode_holds(mode, o)], mode)
+        if r["unsupported"] is not None:
+            return [row]
+        rows.append(r)
+    return rows or [row]
+
+
 def facts():
-    return [analyse(spec) for spec in SPECS]
+    return [row for spec in SPECS for row in analyse(spec)]
 
 
 def q(s):
@@ -774,6 +1887,13 @@ def q(s):
 
 def lean_int(i):
     return f"({i})" if i < 0 else str(i)
+
+
+def lean_dim(d):
+    """a concatenation dimension: an int literal, or ("st", name) = the value of a constant state."""
+    if isinstance(d, tuple):
+        return f"(.st {q(d[1])})"
+    return f"(.lit {lean_int(d)})"
 
 
 def generate(rep: Report | None = None):
@@ -787,10 +1907,27 @@ def generate(rep: Report | None = None):
         for f in r["fields"]:
             if f["kind"] == "num":
                 fs.append(f'.num {q(f["name"])} .{f["upd"]} .{f["mrg"]} {q(f["src"])} {"true" if f["du"] else "false"}')
+                if "adopt" in f:
+                    fs.append(f'.adopt {q(f["name"])} {q(f["adopt"][0])} {q(f["adopt"][1])}')
+                if "task" in f:
+                    fs.append(f'.task {q(f["name"])} {q(f["task"][0])} {q(f["task"][1])}')
+            elif f["kind"] == "der":
+                b = lambda x: "true" if x else "false"
+                fs.append(f'.der {q(f["name"])} {q(f["a"])} {q(f["b"])} {b(f["inUpd"])} {b(f["inMrg"])} {b(f["atEnd"])}')
+            elif f["kind"] == "const":
+                fs.append(f'.const {q(f["name"])}')
+            elif f["kind"] == "topk":
+                b = lambda x: "true" if x else "false"
+                fs.append(f'.topk {q(f["vals"])} {q(f["labels"])} {q(f["k"])} {q(f["loop"])} {q(f["rows"])} {b(f["updPrunes"])} {b(f["mrgPrunes"])}')
+            elif f["kind"] == "welford":
+                b = lambda x: "true" if x else "false"
+                fs.append(f'.welford {q(f["n"])} {q(f["sum"])} {q(f["ss"])} {b(f["same"])} {b(f["args"])} {b(f["chan"])}')
             else:
-                fs.append(f'.lst {q(f["name"])} {q(f["src"])} {q(f["guard"])} {lean_int(f["dim"])} [{", ".join(lean_int(d) for d in f["readDims"])}] {f["raw"]}')
+                fs.append(f'.lst {q(f["name"])} {q(f["src"])} {q(f["guard"])} {lean_dim(f["dim"])} [{", ".join(lean_dim(d) for d in f["readDims"])}] {f["raw"]}')
+                if "cmp" in f:
+                    fs.append(f'.cmp {q(f["name"])} [{", ".join(q(g) for g in f["cmp"][0])}] {lean_dim(f["cmp"][1])}')
         uns = "none" if r["unsupported"] is None else f'(some {q(r["unsupported"])})'
-        body.append(f'  ⟨{q(r["name"])}, [{", ".join(fs)}], {uns}⟩')
+        body.append(f'  ⟨{q(r["name"])}, [{", ".join(fs)}], {uns}, {q(r.get("mode", ""))}⟩')
     out.append(",\n".join(body))
     out += ["]", "", "end TE.Gen", ""]
     p = LEAN / "TE" / "Gen" / "Plumbing.lean"
@@ -798,8 +1935,8 @@ def generate(rep: Report | None = None):
     if not p.exists() or p.read_text() != new:
         p.write_text(new)
     if rep is not None:
-        sup = [r["name"] for r in rows if r["unsupported"] is None]
-        rep.notes.append(f"plumbing translator: {len(sup)} of {len(rows)} classes in normal form; outside: "
+        sup = {r["name"] for r in rows if r["unsupported"] is None}
+        rep.notes.append(f"plumbing translator: {len(sup)} of {len({r['name'] for r in rows})} classes in normal form ({len(rows)} rows); outside: "
                          + "; ".join(f"{r['name']} ({r['unsupported']})" for r in rows if r["unsupported"]))
     return rows
 
@@ -839,18 +1976,140 @@ def _copy(v):
 
 def crosscheck(rep: Report, rows, rng):
     """run the extracted plumbing next to the real class: (a) merge_state of a target with three sources (one of
-    them without updates) must leave every state at what the row's semantics (TE.Plumb.mrg1) predicts from the
+    them without updates) must leave every state at what the row's semantics (TE.Plumb.mrgSt) predicts from the
     states before the call; (b) an update() on an object with history must leave every numeric state at
     `upd(state before, state of a FRESH object after the same update)` (the contribution does not depend on the
-    object's own state and the default is the operator's unit) and every list state one chunk longer."""
+    object's own state and the default is the operator's unit — for an adopting state this IS the claim "adoption =
+    0 + v") and every list state one chunk longer; a derived state equals `a - b` of the states it is derived from
+    after both; a constant state never moves.  A row with a mode is checked on the configurations of that mode."""
     import torch
     from ..registry import BY_NAME
     from ..engine import gen_stream, fed
+
+    def expect_merge(row, f, before, sb, got_all):
+        k = f["kind"]
+        if k == "const":
+            return before[f["name"]]
+        if k == "der":
+            if f["inMrg"] and (f["atEnd"] or sb):
+                return got_all[f["a"]] - got_all[f["b"]]
+            return before[f["name"]]
+        exp = before[f["name"]]
+        if k == "lst" and "cmp" in f and all(before[g] for g in f["cmp"][0]):
+            d = f["cmp"][1]
+            exp = [torch.cat(exp, before[d[1]] if isinstance(d, tuple) else d)]
+        for t in sb:
+            if k == "num":
+                exp = _op(f["mrg"], exp, t[f["src"]])
+            elif (t[f["guard"]] if f["guard"] else True):
+                d = f["dim"]
+                exp = exp + [torch.cat(t[f["src"]], t[d[1]] if isinstance(d, tuple) else d)]
+        return exp
+
+    def chan(a, b):
+        """(n, sum, ss) combine, in the order of operations of the code."""
+        if b[0] == 0:
+            return a
+        if a[0] == 0:
+            return b
+        delta = (a[1] / a[0]) - (b[1] / b[0])
+        outer = torch.outer(delta, delta)
+        return (a[0] + b[0], a[1] + b[1], a[2] + (b[2] + outer * (b[0] * a[0]) / (a[0] + b[0])))
+
+    def close(a, b):
+        if isinstance(a, torch.Tensor) or isinstance(b, torch.Tensor):
+            a, b = torch.as_tensor(a, dtype=torch.float64), torch.as_tensor(b, dtype=torch.float64)
+            return a.shape == b.shape and bool(torch.allclose(a, b, rtol=1e-5, atol=1e-6))
+        return a == b
+
     for row in rows:
         if row["unsupported"] is not None:
             continue
         spec = BY_NAME[row["name"]]
+        if row["fields"] and row["fields"][0]["kind"] == "topk":
+            w = row["fields"][0]
+            names = (w["vals"], w["labels"])
+
+            def select(vs, ls, k):
+                kk = vs.size(-1) if k is None else min(k, vs.size(-1))
+                top = vs.topk(kk, dim=-1)
+                return top[0], ls.gather(dim=-1, index=top[1])
+            for cfg0 in spec.configs:
+                for tgt_n in (0, 2):
+                    cfg = fresh_cfg(cfg0)
+                    tgt = fed(spec, cfg, gen_stream(spec, cfg, rng, tgt_n))
+                    srcs = [fed(spec, cfg, gen_stream(spec, cfg, rng, n)) for n in rng.sample([0, 1, 2], 3)]
+                    nq = len(getattr(tgt, names[0]))
+                    exp = {n: [torch.cat([getattr(tgt, n)[i]] + [getattr(m, n)[i] for m in srcs]) for i in range(nq)] for n in names}
+                    if w["mrgPrunes"]:
+                        for i in range(nq):
+                            exp[names[0]][i], exp[names[1]][i] = select(exp[names[0]][i], exp[names[1]][i], tgt.k)
+                    tgt.merge_state(srcs)
+                    rep.traces += 1
+                    rep.count("plumbing:merge-crosscheck")
+                    if not all(_same(exp[n], getattr(tgt, n)) for n in names):
+                        rep.broke(f"plumbing:{row['name']}.merge_state", f"per-query lists after merge_state differ from what the row describes ({w})",
+                                  {"class": row["name"], "field": w["vals"]})
+                    b = gen_stream(spec, cfg, rng, 1)[0]
+                    old = {n: _copy(getattr(tgt, n)) for n in names}
+                    try:
+                        b.apply(tgt)
+                    except Exception:  # noqa: BLE001
+                        continue
+                    rep.count("plumbing:update-crosscheck")
+                    xs, ys = b.args[0], b.args[1]
+                    idx = b.args[2] if len(b.args) > 2 else b.kwargs.get("indexes")
+                    good = True
+                    for i in range(nq):
+                        if nq == 1:
+                            xi, yi = xs, ys
+                        elif not bool((idx == i).any()):
+                            good = good and _same(old[names[0]][i], getattr(tgt, names[0])[i]) and _same(old[names[1]][i], getattr(tgt, names[1])[i])
+                            continue
+                        else:
+                            xi, yi = xs[idx == i], ys[idx == i]
+                        ev, el = torch.cat([old[names[0]][i], xi]), torch.cat([old[names[1]][i], yi])
+                        if w["updPrunes"]:
+                            ev, el = select(ev, el, tgt.k)
+                        good = good and _same(ev, getattr(tgt, names[0])[i]) and _same(el, getattr(tgt, names[1])[i])
+                    if not good:
+                        rep.broke(f"plumbing:{row['name']}.update", f"per-query lists after update differ from select(cat(entry, rows of the query)) ({w})",
+                                  {"class": row["name"], "field": w["vals"]})
+            continue
+        if row["fields"] and row["fields"][0]["kind"] == "welford":
+            w = row["fields"][0]
+            names = (w["n"], w["sum"], w["ss"])
+            for cfg0 in spec.configs:
+                for tgt_n in (0, 2):
+                    cfg = fresh_cfg(cfg0)
+                    tgt = fed(spec, cfg, gen_stream(spec, cfg, rng, tgt_n))
+                    srcs = [fed(spec, cfg, gen_stream(spec, cfg, rng, n)) for n in rng.sample([0, 1, 2], 3)]
+                    exp = tuple(_copy(getattr(tgt, n)) for n in names)
+                    for m in srcs:
+                        exp = chan(exp, tuple(_copy(getattr(m, n)) for n in names))
+                    tgt.merge_state(srcs)
+                    rep.traces += 1
+                    rep.count("plumbing:merge-crosscheck")
+                    if not all(close(e, getattr(tgt, n)) for e, n in zip(exp, names)):
+                        rep.broke(f"plumbing:{row['name']}.merge_state", f"states after merge_state differ from the fold of the joint combine "
+                                  f"the row describes ({w})", {"class": row["name"], "field": w["n"]})
+                    b = gen_stream(spec, cfg, rng, 1)[0]
+                    fresh = new_metric(spec, cfg)
+                    old = tuple(_copy(getattr(tgt, n)) for n in names)
+                    try:
+                        b.apply(tgt)
+                        b.apply(fresh)
+                    except Exception:  # noqa: BLE001
+                        continue
+                    rep.count("plumbing:update-crosscheck")
+                    exp = chan(old, tuple(getattr(fresh, n) for n in names))
+                    if not all(close(e, getattr(tgt, n)) for e, n in zip(exp, names)):
+                        rep.broke(f"plumbing:{row['name']}.update", f"states after update differ from combine(state, statistics of the batch) ({w})",
+                                  {"class": row["name"], "field": w["n"]})
+            continue
         for cfg0 in spec.configs:
+            if row.get("mode_terms") and not mode_holds(row["mode_terms"], new_metric(spec, fresh_cfg(cfg0))):
+                continue
             for tgt_n in (0, 2):
                 cfg = fresh_cfg(cfg0)
                 tgt = fed(spec, cfg, gen_stream(spec, cfg, rng, tgt_n))
@@ -860,14 +2119,10 @@ def crosscheck(rep: Report, rows, rng):
                 tgt.merge_state(srcs)
                 rep.traces += 1
                 rep.count("plumbing:merge-crosscheck")
+                got_all = {f["name"]: getattr(tgt, f["name"]) for f in row["fields"]}
                 for f in row["fields"]:
-                    exp = before[f["name"]]
-                    for t in sb:
-                        if f["kind"] == "num":
-                            exp = _op(f["mrg"], exp, t[f["src"]])
-                        elif (t[f["guard"]] if f["guard"] else True):
-                            exp = exp + [torch.cat(t[f["src"]], f["dim"])]
-                    got = getattr(tgt, f["name"])
+                    exp = expect_merge(row, f, before, sb, got_all)
+                    got = got_all[f["name"]]
                     if not _same(exp, got):
                         rep.broke(f"plumbing:{row['name']}.merge_state",
                                   f"state {f['name']} after merge_state differs from what the extracted plumbing row predicts "
@@ -887,6 +2142,10 @@ def crosscheck(rep: Report, rows, rng):
                     got, x = getattr(m, f["name"]), getattr(fresh, f["name"])
                     if f["kind"] == "num":
                         ok = _same(_op(f["upd"], old[f["name"]], x), got)
+                    elif f["kind"] == "const":
+                        ok = _same(old[f["name"]], got)
+                    elif f["kind"] == "der":
+                        ok = _same(getattr(m, f["a"]) - getattr(m, f["b"]), got) if f["inUpd"] else _same(old[f["name"]], got)
                     else:
                         ok = len(x) == 1 and len(got) == len(old[f["name"]]) + 1 and _same(got[-1], x[0]) and _same(got[:-1], old[f["name"]])
                     if not ok:
@@ -899,7 +2158,10 @@ if __name__ == "__main__":
         if r["unsupported"]:
             print("UNSUPPORTED", r["name"], "--", r["unsupported"])
         else:
-            print("OK", r["name"], [(f["name"], f.get("upd", "app"), f.get("mrg", "cat"), f["src"], f.get("guard"), f.get("dim"), f.get("readDims"), f.get("raw")) for f in r["fields"]])
+            print("OK", r["name"] + (f" [{r['mode']}]" if r.get("mode") else ""),
+                  [{k: v for k, v in f.items() if k != "usrc"} if f["kind"] not in ("num", "lst") or "adopt" in f or "task" in f else
+                   (f["name"], f.get("upd", "app"), f.get("mrg", "cat"), f["src"], f.get("guard"), f.get("dim"), f.get("readDims"), f.get("raw"))
+                   for f in r["fields"]])
             for d in r["compute"]:
                 print("      compute:", d)
             print("      update:", {f["name"]: f["usrc"] for f in r["fields"]}, r["update_info"])
